@@ -1470,6 +1470,11 @@ class Parallel(Logger):
         batch_size = self._get_batch_size()
 
         with self._lock:
+            # An error can have been registered by a callback thread while
+            # waiting for the lock: do not consume the iterator any further.
+            if self._aborting:
+                return False
+
             # to ensure an even distribution of the workload between workers,
             # we look ahead in the original iterators more than batch_size
             # tasks - However, we keep consuming only one batch at each
